@@ -45,9 +45,69 @@ theorem tag_hostStemsOfSplit {host0 : Str} {o : Option (Str × Str)} {t : TStem}
       · exact tag_labelStems h
       · simp at h
 
+/-- `hostStems` without its `let` -/
+theorem hostStems_eq (sa : Bool) (n host0 : Str) :
+    hostStems sp sa n host0 =
+      if (sa && !(host0.head? == some '[')) = true
+      then hostStemsOfSplit host0 (splitSuffixParsed sp n) else normalHostStems host0 := rfl
+
+/-- the host stems in the vocabulary of the specification (`hostSplit`: a bracketed literal has
+no public suffix) -/
+theorem hostStems_spec (sa : Bool) (n : Str) :
+    hostStems sp sa n (specHost n) =
+      if sa then hostStemsOfSplit (specHost n) (hostSplit sp n) else normalHostStems (specHost n) := by
+  rw [hostStems_eq]
+  unfold hostSplit
+  cases sa <;> cases ((specHost n).head? == some '[') <;> simp [hostStemsOfSplit]
+
+/-- the grammar host starts with `[` only if `host[:port]` does … -/
+theorem hostportOf_bracket_of_specHost {n : Str} (h : ((specHost n).head? == some '[') = true) :
+    ∃ r, hostportOf n = '[' :: r := by
+  unfold specHost at h
+  cases hs : specHostPort (hostportOf n) with
+  | none => simp [hs] at h
+  | some hp =>
+    obtain ⟨host, op⟩ := hp
+    simp only [hs] at h
+    have e := specHostPort_some hs
+    cases host with
+    | nil => simp at h
+    | cons c r =>
+      simp only [List.head?_cons, beq_iff_eq, Option.some.injEq] at h
+      subst h
+      exact ⟨r ++ optPart ':' op, by simpa using e⟩
+
+/-- … and then the first piece of `PORT_SPLITTER.split` starts with `[` too (any netloc, inside
+the grammar or not): where the specification sees a bracketed literal, stems.py does -/
+theorem head_portSplit_bracket {n : Str} (h : ((specHost n).head? == some '[') = true) :
+    (((portSplit (hostportOf n)).headD []).head? == some '[') = true := by
+  obtain ⟨r, hr⟩ := hostportOf_bracket_of_specHost h
+  rw [hr]
+  unfold portSplit
+  simp only [splitBy]
+  have : (('[' : Char) == ':') = false := by decide
+  simp only [this, Bool.false_and, Bool.false_eq_true, if_false]
+  cases splitBy (fun c rest => c == ':' && !portLookahead rest) r <;> simp [consHead]
+
+theorem hostSplit_bracketed {n inner : Str} (hin : specHost n = '[' :: inner ++ [']']) :
+    hostSplit sp n = none := by
+  unfold hostSplit
+  rw [hin]; rfl
+
+theorem hostSplit_plain {n : Str} (hp : Plain (specHost n)) :
+    hostSplit sp n = splitSuffixParsed sp n := by
+  unfold hostSplit
+  have : ((specHost n).head? == some '[') = false := by
+    cases hh : specHost n with
+    | nil => rfl
+    | cons c r =>
+      have : c ≠ '[' := (hp c (by rw [hh]; simp)).2.1
+      simp [this]
+  rw [this]; rfl
+
 theorem tag_hostStems {sa : Bool} {n host0 : Str} {t : TStem}
     (h : t ∈ hostStems sp sa n host0) : t.1 = 'h' := by
-  unfold hostStems at h
+  rw [hostStems_eq] at h
   split at h
   · exact tag_hostStemsOfSplit h
   · exact tag_normalHostStems h
@@ -203,7 +263,7 @@ theorem child_t (sa : Bool) (p : Parts) (h : wfNetloc p.netloc = true) :
 
 theorem child_h (sa : Bool) (p : Parts) (h : wfNetloc p.netloc = true) :
     child (indexOf sp sa p) ['h'] =
-      some (if sa then hostJoined (specHost p.netloc) (splitSuffixParsed sp p.netloc)
+      some (if sa then hostJoined (specHost p.netloc) (hostSplit sp p.netloc)
             else specHost p.netloc) := by
   rw [child_indexOf, valuesOf_lruStemsT, portSplit_wf h]
   simp only [List.headD_cons]
@@ -216,13 +276,13 @@ theorem child_h (sa : Bool) (p : Parts) (h : wfNetloc p.netloc = true) :
   have hu : ('u' = 'h') = False := by decide
   have hw : ('w' = 'h') = False := by decide
   simp only [hs, ht, hp, hq, hf, hu, hw, if_false, if_true, e]
-  rw [foldl_updT_h_none]
+  rw [foldl_updT_h_none, hostStems_spec]
   cases sa with
   | false =>
     have := values_normalHostStems (specHost p.netloc)
-    simp only [hostStems, Bool.false_eq_true, if_false, this.1, this.2]
+    simp only [Bool.false_eq_true, if_false, this.1, this.2]
   | true =>
-    have := values_hostStemsOfSplit (specHost p.netloc) (splitSuffixParsed sp p.netloc)
-    simp [hostStems, this.1, this.2]
+    have := values_hostStemsOfSplit (specHost p.netloc) (hostSplit sp p.netloc)
+    simp [this.1, this.2]
 
 end Ural.Lru
